@@ -569,7 +569,7 @@ impl Database {
                     .to_string(),
                 10,
             ) {
-                Ok(current) => {
+                Ok(current) if current.checked_add(inc).is_some() => {
                     let next = (current + inc).to_string();
                     db.insert(key.clone(), Value::from(next.clone()));
                     (next, -1)
